@@ -136,6 +136,16 @@ func ringWork(full, r *ring.Ring) (o outs) {
 	o.add("INTT", dg(res))
 	r.MulScalar(a, 0xDEADBEEFCAFE, res)
 	o.add("MulScalar", dg(res))
+	{
+		// automorphism in the NTT domain, with a Galois element that depends on the ring (degree, level, first
+		// modulus): in the concurrent lane the goroutines of one subject are then the first users of that element
+		k := uint64(1 + (uint64(r.N())+uint64(lvl)*7+r.SubRings[0].Modulus)%61)
+		gal := ring.ModExp(5, k, r.NthRoot())
+		nt, out := full.NewPoly(), full.NewPoly()
+		r.NTT(a, nt)
+		r.AutomorphismNTT(nt, gal, out)
+		o.add("AutomorphismNTT", dg(out))
+	}
 	if r.Type() == ring.Standard {
 		r.MultByMonomial(a, 3, res)
 		o.add("MultByMonomial", dg(res))
